@@ -168,8 +168,12 @@ pub static MAX_TEXT_LEN: std::sync::atomic::AtomicUsize = std::sync::atomic::Ato
 
 /// Boundary-biased length.
 pub fn gen_len(r: &mut Rng) -> usize {
-    let l = gen_len_raw(r);
     let max = MAX_TEXT_LEN.load(std::sync::atomic::Ordering::Relaxed);
+    if max > 5000 && r.chance(1, 12) {
+        // "big" runs: occasionally a text far beyond the usual sizes
+        return r.below(max);
+    }
+    let l = gen_len_raw(r);
     if l > max { l % (max + 1) } else { l }
 }
 
